@@ -283,6 +283,19 @@ def construct(eng, st, cls, args):
         x, y = fresh("cx"), fresh("cy")
         cell = TupV([IntV(x), IntV(y)])
         rng = z3.ForAll([x, y], z3.Implies(B(shading.contains(cell)), z3.And(x >= 0, x <= patt.n, y >= 0, y <= patt.n)))
+        if eng.concrete:
+            # concrete differential run: the constructor's assertion is evaluated (cells within a margin of the grid)
+            n_c = z3.simplify(patt.n)
+            if z3.is_int_value(n_c):
+                k = n_c.as_long()
+                for cx in range(-3, k + 6):
+                    for cy in range(-3, k + 6):
+                        if 0 <= cx <= k and 0 <= cy <= k:
+                            continue
+                        inside = z3.simplify(B(shading.contains(TupV([IntV(z3.IntVal(cx)), IntV(z3.IntVal(cy))]))))
+                        if z3.is_true(inside):
+                            from .engine import _PyRaise
+                            raise _PyRaise("AssertionError")
         eng.emit("assert[MeshPatt.__init__ cells in range]", st, rng)
         return ObjV("MeshPatt", {"pattern": patt, "shading": shading})
     raise Unsupported(f"constructor {cls}")
